@@ -313,6 +313,15 @@ def lacking(rng, item, derived, negative):
             opts += ['NoZ']
         if not derived & {'Eq', 'Ord'}:
             opts += ['NoEq']
+        # `Inh` (an inherent `zeroize` that is not the trait's; implements `Zeroize` only): usable when the field is
+        # zeroized and skipped for every other derived trait -- `Zeroize(fqs)` must then reach the trait function
+        # whatever else is written on the field, in whatever attribute order (round 7)
+        groups = {'Debug': ['Debug'], 'PartialEq': ['EqHashOrd'], 'Eq': ['EqHashOrd'], 'PartialOrd': ['EqHashOrd'],
+                  'Ord': ['EqHashOrd'], 'Hash': ['EqHashOrd', 'Hash']}
+        others = derived - {'Zeroize', 'ZeroizeOnDrop'}
+        if 'Zeroize' in derived and cov != 'all' and 'Zeroize' not in cov and others and \
+                all(t in groups and any(g in cov for g in groups[t]) for t in others):
+            opts = ['Inh'] * 3 + opts
         if opts:
             f.ty = pick(rng, opts)
 
